@@ -6,7 +6,9 @@
        dimensions are equal;
  (ii)  routing: in Operator::eval `+`/`-` and in Numeric::partial_cmp a differing-unit operand
        is converted only through as_unitset -> UnitSet::scale_to, and within `+` (resp. `-`)
-       every branch combines the operands the same way (sibling-branch consistency);
+       every branch combines the operands the same way (sibling-branch consistency); the
+       conversion is dominated by the false edges of is_no_unit() tests of both operands
+       (a unitless operand is never scaled);
  (iii) `*` and `/` on UnitSet only add / subtract exponents.
 """
 import math
@@ -148,6 +150,7 @@ def run(ctx, F):
                 else:
                     ctx.fail("F9-branch-consistency", key, f"the numeric branches of `{'+' if opn == 'Plus' else '-'}` do not all combine their operands the same way: {kinds} over {len(ss)} sites (expected {want}); one unit case computes a different operation", where=b.where(ss[0][0]) if ss else b.where())
                 cv = [c for c in conv if c in reg]
+                unitless_guard(ctx, b, S, key, cv)
                 if len(cv) == 1:
                     ctx.ok("F4-conversion-routing", key + "|as_unitset", None)
                 elif not helpers:
@@ -159,11 +162,13 @@ def run(ctx, F):
                 ctx.ok("F9-branch-consistency", key, {"combine_sites": len(sites), "kind": kinds})
             else:
                 ctx.fail("F9-branch-consistency", key, f"the branches of the shared numeric helper {name} treat the right operand differently: {kinds} over {len(sites)} sites; e.g. one branch uses the negated operand and another the raw one, so `a - b` is wrong for that unit case", where=b.where(sites[0][0]))
+            unitless_guard(ctx, b, S, key, conv)
             if len(conv) != 1:
                 ctx.fail("F4-conversion-routing", key + "|as_unitset", f"expected one as_unitset conversion, found {len(conv)}", where=b.where())
     pc = prog.one("<value::numeric::Numeric as std::cmp::PartialOrd>::partial_cmp")
     conv = [bi for bi, t in pc.calls() if (mir.callee_name(t) or "").endswith("Numeric>::as_unitset")]
     others = [mir.callee_name(t) for bi, t in pc.calls() if re.search(r"::(scale_to|scale_factor)$", mir.callee_name(t) or "") or re.search(r"Number as std::ops::(Mul|Div)", mir.callee_name(t) or "")]
+    unitless_guard(ctx, pc, S, "Numeric::partial_cmp", conv)
     if len(conv) == 1 and not others:
         ctx.ok("F4-conversion-routing", "Numeric::partial_cmp|as_unitset", None)
     else:
@@ -192,6 +197,33 @@ def run(ctx, F):
     ctx.explanation = ("Decision tables Unit::dimension / Unit::scale_factor evaluated for all 30 variants (constant f64 expressions folded) and compared with the CSS Values 4 classes and ratios; "
                        "routing of unit conversion through as_unitset in `+`, `-` and comparison (MIR); sibling-branch consistency of the numeric `+`/`-` branches (every branch combines the operands with "
                        "the same operation); exponent arithmetic of UnitSet Mul/Div. 'Any other pair is an error' is a value-level question and is not decided.")
+
+
+def unitless_guard(ctx, body, S, key, conv_blocks):
+    """F3 dominance: a differing-unit conversion (as_unitset) may only run after BOTH operands were
+    tested for being unitless and found not to be ("a unitless operand takes the other operand's
+    unit" — it is never scaled).  Each as_unitset block must be dominated by the false edge of an
+    is_no_unit() test on two distinct receivers."""
+    dom = body.dominators()
+    tests = []
+    for bi, t in body.calls():
+        if not (mir.callee_name(t) or "").endswith("Numeric>::is_no_unit") or t.get("target") is None:
+            continue
+        sw = body.term(t["target"])
+        if sw["k"] != "switch" or sw["discr"].get("p", [None])[0] != t["dest"][0]:
+            continue
+        false_t = [tg for val, tg, _ in sw["targets"] if str(val) == "0"]
+        if len(false_t) != 1:
+            continue
+        tests.append((sym.show(S.operand(body, t["args"][0])), false_t[0], bi))
+    for cb in conv_blocks:
+        guarding = {recv for recv, ft, _ in tests if ft in dom.get(cb, ())}
+        k = f"{key}|unitless-before-conversion"
+        if len(guarding) >= 2:
+            ctx.ok("F3-unitless-first", k, {"tested": sorted(guarding)})
+        else:
+            ctx.fail("F3-unitless-first", k, f"the unit conversion (as_unitset) can run before both operands were tested with is_no_unit() (tested on the way: {sorted(guarding) or 'none'}): "
+                     "a unitless operand would be scaled by a unit ratio instead of taking the other operand's unit", where=body.where(cb))
 
 
 def operator_regions(body):
